@@ -275,3 +275,17 @@ func Block(label string, cond func() bool) {
 	}
 	Await(label, cond)
 }
+
+// CounterPrefix sums the counters whose key starts with prefix.
+func CounterPrefix(prefix string) int {
+	s := S
+	s.mu.Lock()
+	defer s.mu.Unlock()
+	n := 0
+	for k, v := range s.counts {
+		if len(k) >= len(prefix) && k[:len(prefix)] == prefix {
+			n += v
+		}
+	}
+	return n
+}
